@@ -170,6 +170,12 @@ where
 				async move {
 					let res = fut.await.map_err(Into::into)?;
 
+					// What the inner service refuses on the HTTP level (e.g. 429 when the connection limit has been
+					// reached) is not a JSON-RPC response: hand it on as it is.
+					if !res.status().is_success() {
+						return Ok(res);
+					}
+
 					let (parts, body) = res.into_parts();
 					let mut body = http_body_util::BodyStream::new(body);
 					let mut bytes = Vec::new();
